@@ -442,7 +442,16 @@ func (m *Machine) exec(st *State, fr *Frame, ins ssa.Instruction) {
 		fr.env[x] = m.makeMap(st, x.Type())
 		next()
 	case *ssa.MakeChan:
-		fr.env[x] = m.makeChan(st, x.Type())
+		chv := m.makeChan(st, x.Type())
+		if sz, ok := m.val(st, fr, x.Size).(*Term); ok && sz.sort == IntSort {
+			st.assume(m.ctx.Eq(m.ctx.App("chanCapOf", IntSort, chv), sz))
+		} else if ok {
+			// bit-vector mode: only constant sizes are recorded
+			if c, isC := x.Size.(*ssa.Const); isC && c.Value != nil {
+				st.assume(m.ctx.Eq(m.ctx.App("chanCapOf", IntSort, chv), m.ctx.Int(c.Int64())))
+			}
+		}
+		fr.env[x] = chv
 		next()
 	case *ssa.MakeClosure:
 		fr.env[x] = m.makeClosure(st, fr, x)
